@@ -13,8 +13,8 @@ model_name = "Tracing.texec (the log-forwarding protocol)"
 monitor_name = "C20Check.c20_ok"
 sub_names = {1: "the ordered history of one run with init_tracing()"}
 rule = ("cases = 1-5 scenarios (1-3 steps each, @retry(N) with failing first attempts or none) whose step bodies emit 0-3 tracing "
-        "events before and 0-2 after an await point that yields 0-3 times (30% of the cases have one chatty step with a burst of 26-89 "
-        "messages; 25% of the steps emit inside a user span nested in the step's span; 20% of the steps emit messages whose text contains double underscores; 40% of the runs are polled inside an "
+        "events before and 0-2 after an await point that yields 0-3 (a third of the steps: 9 or 14) times (30% of the cases have one chatty step with a burst of 26-89 "
+        "messages; 25% of the steps emit inside a user span nested in the step's span; 20% of the steps emit messages whose text contains double underscores; 20% of the steps hold a clone of their span beyond their own end (it is dropped inside a step of another scenario, so the close arrives after the subscription); 40% of the runs are polled inside an "
         "application-level span; in 25% the cucumber layer sits behind LevelFilter::WARN and the messages are warnings; in 25% a which_scenario classifier is installed after init_tracing(); in 35% before and/or after hooks log 0-3 messages inside their own spans), concurrency 1..8 or unlimited; ONE run per process "
         "(the subscriber is global) through the REAL Cucumber::init_tracing() with a recording writer in front of which there is no "
         "Normalize. The trace points of the hook (forwarder calls, span closes, subscriptions), the harness's own records (step "
@@ -38,8 +38,8 @@ def gen_one(rng):
     for i in range(rng.randrange(1, 6)):
         sid = 11 + i
         retry = None if rng.random() < 0.5 else rng.randrange(0, 3)
-        steps = [dict(id=sid * 10 + j + 1, pre=rng.choice([0, 1, 2, 3]), yields=rng.choice([0, 0, 1, 3]), post=rng.choice([0, 1, 2]),
-                      inner=rng.random() < 0.25, under=rng.random() < 0.2)
+        steps = [dict(id=sid * 10 + j + 1, pre=rng.choice([0, 1, 2, 3]), yields=rng.choice([0, 0, 1, 3, 9, 14]), post=rng.choice([0, 1, 2]),
+                      inner=rng.random() < 0.25, under=rng.random() < 0.2, leak=rng.random() < 0.2)
                  for j in range(rng.randrange(1, 4))]
         scs.append(dict(id=sid, retry=retry, fails=min(rng.choice([0, 0, 1, 2]), (retry or 0) + 1), steps=steps))
     if rng.random() < 0.3:          # a chatty step: a burst of messages between two await points
@@ -110,5 +110,5 @@ def describe(case, res):
             "retry=%s" % any(sc["retry"] for sc in case["scenarios"]), "outer_span=%s" % bool(case.get("outer")),
             "inner_span=%s" % any(st.get("inner") for sc in case["scenarios"] for st in sc["steps"]),
             "dunder=%s" % any(st.get("under") for sc in case["scenarios"] for st in sc["steps"]),
-            "filter=%s" % case.get("filter", "info"), "hooks=%s" % ("none" if not case.get("hooks") else "+".join(k for k in ("before", "after", "stagger") if case["hooks"].get(k))), "which_after=%s" % bool(case.get("which_after")),
+            "leak=%s" % any(st.get("leak") for sc in case["scenarios"] for st in sc["steps"]), "filter=%s" % case.get("filter", "info"), "hooks=%s" % ("none" if not case.get("hooks") else "+".join(k for k in ("before", "after", "stagger") if case["hooks"].get(k))), "which_after=%s" % bool(case.get("which_after")),
             "burst=%s" % any(st["pre"] > 8 or st["post"] > 8 for sc in case["scenarios"] for st in sc["steps"])]
